@@ -65,6 +65,7 @@ ASSUMPTIONS = [
     "strings are valid UTF-8 without NUL; four-character codes are ASCII",
     "model of Options(strict=True): a box whose fields do not fill it exactly is rejected (the library warns and drops the surplus)",
     "classes outside the model and the JSON form: differential testing only (channel classes-diff, oracle clauses json/lazy-fields)",
+    "call history: seeded read-only API calls (repr/str/as_python/toJSON forms/lookups/every argument-less public method) are interleaved with the checked operations in one long-lived process; a drift of a class-level default is recorded and becomes the prelude of later failures, it is not a verdict by itself",
 ]
 
 FIXTURES = common.REPO / "tests" / "fixtures"
@@ -179,14 +180,62 @@ def hexs(b: bytes) -> str:
 
 # ------------------------------------------------------------------ Layer C oracle (the property text)
 
+class _History:
+    """the call history is part of C04's quantifier: read-only API calls are interleaved with the
+    checked operations, the process (and with it every class-level default of the library) lives
+    across all cases of a run, and every class-level mutable attribute is watched."""
+    calls: list = []          # read-only calls interleaved in the current case
+    prelude: list = []        # earlier cases after which a class-level attribute had changed
+    state: dict | None = None
+    changed: dict = {}
+
+    @classmethod
+    def begin(cls, calls):
+        cls.calls = calls or []
+        if cls.state is None:
+            cls.state = I.class_state()
+
+    @classmethod
+    def end(cls, ch, data: bytes, iv):
+        """after a case: did a class-level default drift?  (not a failure by itself – the cases that
+        follow run in the drifted state and their failures carry this case as prelude)"""
+        cls.note(ch, data, iv)
+        cls.calls = []
+
+    @classmethod
+    def note(cls, ch, data: bytes, iv):
+        """record a drift of the class-level state now (also called before a failure of the current
+        case is written down, so that the failure carries the complete, unshrunk history)"""
+        now = I.class_state()
+        diff = sorted(k for k in set(now) | set(cls.state) if now.get(k) != cls.state.get(k))
+        if diff:
+            for k in diff:
+                if ch is not None:
+                    ch.count("class-level attribute changed during a case: " + k)
+                cls.changed[k] = cls.changed.get(k, 0) + 1
+            if len(cls.prelude) < 4:
+                cls.prelude.append({"data": data.hex(), "iv": iv, "calls": cls.calls, "changed": diff})
+            cls.state = now
+
+
+HIST = _History
+
+
+def _with_calls(w):
+    I.run_calls(w, HIST.calls)
+    return w
+
+
 def oracle_roundtrip(data: bytes, iv, modes=MODES, want_json=True):
-    """clauses 1+2 of C04 on the real library; returns a list of failure dicts"""
+    """clauses 1+2 of C04 on the real library, with the current case's read-only calls made on every
+    tree before the checked operation; returns a list of failure dicts"""
     fails = []
     views = {}
     for lazy, mode in modes:
         tag = ("lazy" if lazy else "eager") + "/" + mode
         try:
             w = guarded(I.load, data, lazy, mode, iv)
+            guarded(_with_calls, w)
             out = guarded(I.encode, w)
         except Exception as e:
             fails.append({"clause": "roundtrip", "mode": tag, "what": f"exception {type(e).__name__}: {str(e)[:120]}"})
@@ -197,6 +246,7 @@ def oracle_roundtrip(data: bytes, iv, modes=MODES, want_json=True):
                           "what": f"parse then encode differs from the input at byte {i} (lengths {len(out)} vs {len(data)})"})
         try:
             w2 = guarded(I.load, data, lazy, mode, iv)
+            guarded(_with_calls, w2)
             views[tag] = guarded(I.pure_json, w2)
         except Exception as e:
             fails.append({"clause": "lazy-fields", "mode": tag, "what": f"exception {type(e).__name__}: {str(e)[:120]}"})
@@ -207,6 +257,7 @@ def oracle_roundtrip(data: bytes, iv, modes=MODES, want_json=True):
         for lazy in (False, True):
             try:
                 w = guarded(I.load, data, lazy, "r", iv)
+                guarded(_with_calls, w)
                 out = guarded(I.json_roundtrip, w)
                 if out != data:
                     fails.append({"clause": "json", "mode": "lazy" if lazy else "eager",
@@ -218,8 +269,14 @@ def oracle_roundtrip(data: bytes, iv, modes=MODES, want_json=True):
 
 
 def failure(kind_fails, data: bytes, iv, extra=None):
+    if HIST.state is not None:
+        HIST.note(None, data, iv)
     d = {"kind": kind_fails[0]["clause"], "data": data.hex(), "iv": iv, "failures": kind_fails[:4],
          "regions": sorted(regions(data))}
+    if HIST.calls:
+        d["calls"] = HIST.calls
+    if HIST.prelude:
+        d["prelude"] = HIST.prelude
     if extra:
         d.update(extra)
     return d
@@ -308,7 +365,9 @@ def case_key(want: str) -> tuple:
     return kinds
 
 
-def check_generated(ch: Channel, cases, outs, json_every=1):
+def check_generated(ch: Channel, cases, outs, json_every=1, hrng=None):
+    import random
+    hrng = hrng or random.Random(0)
     dec = run_driver(["boxdec " + " ".join(G.ctx_tokens(ctx)) + " " + o for (f, ctx), o in zip(cases, outs)])
     for idx, ((forest, ctx), o, d) in enumerate(zip(cases, outs, dec)):
         if len(ch.oracle_failures) >= 20 or len(ch.disagreements) >= 60:
@@ -319,6 +378,8 @@ def check_generated(ch: Channel, cases, outs, json_every=1):
             ch.errors.append("driver rejected a generated forest: " + want[:200])
             continue
         data = bytes.fromhex(o) if o != "-" else b""
+        HIST.begin(I.gen_calls(hrng))
+        ch.count("read-only calls before the checked operation: %d" % len(HIST.calls))
         if d != want:
             ch.disagreements.append({"what": "model decode of its own encoding differs", "want": want[:400], "got": d[:400]})
         toks = want.split(" ")
@@ -336,6 +397,7 @@ def check_generated(ch: Channel, cases, outs, json_every=1):
             tag = ("lazy" if lazy else "eager") + "/" + mode
             try:
                 w = guarded(I.load, data, lazy, mode, ctx[0])
+                guarded(_with_calls, w)
                 got = guarded(I.impl_tokens, w, data)
                 enc = guarded(I.encode, w)
             except Exception as e:
@@ -348,9 +410,11 @@ def check_generated(ch: Channel, cases, outs, json_every=1):
                                          "data": o, "iv": ctx[0]})
         fails = oracle_roundtrip(data, ctx[0], want_json=(idx % json_every == 0))
         if fails:
+            HIST.note(ch, data, ctx[0])
             mini = shrink_forest(forest, ctx, lambda b: bool(oracle_roundtrip(b, ctx[0], want_json=True))) or data
             f2 = oracle_roundtrip(mini, ctx[0]) or fails
             ch.oracle_failures.append(failure(f2, mini if oracle_roundtrip(mini, ctx[0]) else data, ctx[0]))
+        HIST.end(ch, data, ctx[0])
 
 
 def top_boxes(data: bytes):
@@ -383,10 +447,12 @@ def check_fixtures(ch: Channel, ctx, mdat_budget: int):
         # the whole file through the real library (Layer C)
         ch.evaluations += 1
         ch.count("fixture-file")
+        HIST.begin(I.gen_calls(ctx.rng("history:" + path.name)))
         fails = oracle_roundtrip(data, iv) if len(ch.oracle_failures) < 6 else []
         if fails:
             ch.oracle_failures.append(failure(fails, data[:0], iv, {"fixture": str(path.relative_to(FIXTURES)),
                                                                    "regions": sorted(regions(data))}))
+        HIST.end(ch, data[:0], iv)
     outs = run_driver(lines)
     cache = {}
     for (path, n, iv), out, line in zip(meta, outs, lines):
@@ -437,7 +503,7 @@ def ch_boxcodec(ctx):
     cases = [G.gen_forest(rng, ctx.thorough and i % 7 == 0) for i in range(n)]
     try:
         outs = encode_cases(cases)
-        check_generated(ch, cases, outs, json_every=1 if ctx.thorough else 2)
+        check_generated(ch, cases, outs, json_every=1 if ctx.thorough else 2, hrng=ctx.rng("history"))
         check_fixtures(ch, ctx, mdat_budget=ctx.scale(60_000, 400_000))
     except Exception as e:
         import traceback
@@ -595,7 +661,9 @@ def run_edit_impl(data: bytes, ctx, edits, lazy: bool, child_bytes):
     w = I.load(data, lazy, "rw", ctx[0])
     root = w.children[0]
     errs = []
-    for e in edits:
+    slots = len(edits) + 1          # read-only calls before, between and after the edits
+    for k, e in enumerate(edits):
+        I.run_calls(w, HIST.calls[k::slots])
         e2 = e
         if e[0] in ("A", "I"):
             spec = e[-1]
@@ -605,6 +673,7 @@ def run_edit_impl(data: bytes, ctx, edits, lazy: bool, child_bytes):
         r = I.apply_edit(root, e2, ctx[0])
         if r:
             errs.append(r)
+    I.run_calls(w, HIST.calls[len(edits)::slots])
     sizes = I.stored_sizes(root)
     out = guarded(root.encode)
     return sizes, I.metas(root), out, errs
@@ -658,6 +727,7 @@ def ch_boxedit(ctx):
         "position of every box after encode(), output bytes. Non-trivial = distinct case with >= 2 edits. Oracle: "
         "independent walker over the output (sizes fit, children fill parents, attributes equal the walker's)."))
     rng = ctx.rng("boxedit")
+    hrng = ctx.rng("boxedit-history")
     n = ctx.scale(250, 7000)
     cases = []
     for i in range(n):
@@ -694,6 +764,7 @@ def ch_boxedit(ctx):
             impl_edits = [e for _, e, _ in es]
             tracked = all(tr for _, _, tr in es)
             ch.count("tracked" if tracked else "untracked")
+            HIST.begin(I.gen_calls(hrng, 6))
             parts = o.split(" ", 3)
             for lazy in (False, True):
                 try:
@@ -711,9 +782,12 @@ def ch_boxedit(ctx):
                     break
             fails = edit_oracle(d, c, impl_edits, tracked, child_bytes)
             if fails:
+                HIST.note(ch, d, c[0])
                 ch.oracle_failures.append({"kind": "edit-sizes", "data": d.hex(), "iv": c[0],
                                            "edits": [_edit_json(e, child_bytes) for e in impl_edits],
-                                           "tracked": tracked, "failures": fails[:3], "regions": []})
+                                           "tracked": tracked, "failures": fails[:3], "regions": [],
+                                           "calls": HIST.calls, "prelude": HIST.prelude})
+            HIST.end(ch, d, c[0])
             ch.sample({"start": " ".join(G.tokens(root))[:200], "edits": " ".join(sum((t for t, _, _ in es), []))[:200]}, limit=3)
     except Exception as e:
         import traceback
@@ -982,9 +1056,11 @@ def ch_classes_diff(ctx):
         except W.WalkError as e:
             ch.errors.append(f"synthesiser produced an inconsistent {label}: {e}")
             continue
+        HIST.begin(I.gen_calls(srng))
         fails = oracle_roundtrip(data, 8)
         if fails:
             ch.oracle_failures.append(failure(fails, data, 8, {"class": label}))
+        HIST.end(ch, data, 8)
         ch.sample({"synthesised": label, "bytes": data.hex()[:160]}, limit=3)
     return ch
 
@@ -1027,7 +1103,24 @@ def channels(ctx):
 
 
 def _oracle_on_failure_dict(f):
-    """re-evaluate a failure dict on the real code; returns the list of failures now"""
+    """re-evaluate a failure dict on the real code – first the recorded prelude (earlier cases after
+    which a class-level default of the library had changed), then the case with its own read-only
+    calls; returns the list of failures now"""
+    for pre in f.get("prelude") or []:
+        try:
+            HIST.calls = pre.get("calls") or []
+            if pre.get("data"):
+                oracle_roundtrip(bytes.fromhex(pre["data"]), pre.get("iv"))
+        except Exception:
+            pass
+    HIST.calls = f.get("calls") or []
+    try:
+        return _oracle_case(f)
+    finally:
+        HIST.calls = []
+
+
+def _oracle_case(f):
     kind = f.get("kind")
     iv = f.get("iv")
     if kind == "tfdt-switch":
@@ -1149,7 +1242,8 @@ def replay(ctx, payload):
         return {"fails": False, "note": "replay names a broken obligation, no input", "payload": payload.get("broken")}
     fails = _oracle_on_failure_dict(f)
     return {"fails": bool(fails), "failures": fails[:5], "input": {k: (v if k != "data" else v[:200]) for k, v in f.items()
-                                                                   if k in ("kind", "data", "iv", "fixture", "edits", "regions")}}
+                                                                   if k in ("kind", "data", "iv", "fixture", "edits", "regions",
+                                                                            "calls", "prelude")}}
 
 
 def replay_finding(ctx, finding):
